@@ -28,6 +28,8 @@ EXPLANATION += ' A64-RT-STOREORDER, CTOR-INIT.'
 EXPLANATION += ' A64-LOOPLOAD, A64-DSREAD-LIGHT.'
 CLAIM += (' The load half of the loop, with the scratchpad masks either generator writes, executed on terms: r_j ^= quadword j at scratchpad + (spMix low & L3 mask); the sixteen sign-extended 32-bit integers at scratchpad + (spMix high & L3 mask) go to the lanes of v16..v23 in order; only e0-e3 are masked (A64-LOOPLOAD).')
 
+EXPLANATION += ' A64-DSITEM-HSEM.'
+
 
 def run(ctx, R):
     FI = astq.Facts(ctx, 'K0')
@@ -62,3 +64,4 @@ def run(ctx, R):
     a64dsread.rule_dsread_light(ctx, R)
     genreset.rule_ctor_init(ctx, R, 'a64')
     rtpreserve.rule_store_order(ctx, R, 'a64')
+    a64dsread.rule_dsitem(ctx, R)
